@@ -386,3 +386,9 @@ def _real_recasing(a: dict):
 
 
 REGISTRY["C02.outcome_invariant_under_recasing"].real_replay = _real_recasing
+
+# ------------------------------------------------------------------ DESCRIBE looks quoted names up exactly as written (shared with C09)
+import obligations.C09  # noqa: E402,F401
+from vf.registry import alias  # noqa: E402
+
+alias("C02.describe_keeps_quoted_names_and_folds_unquoted_ones", "C09.describe_and_show_scope_literals", "DESCRIBE TABLE / VIEW finds an object under a quoted lower- or mixed-case schema or table name exactly as written, and under the upper-cased name when unquoted")
